@@ -2473,6 +2473,15 @@ class KmipEngine(object):
                             enums.CryptographicUsageMask,
                             value
                         )
+                        if value != sum(m.value for m in mask_values):
+                            # The filter carries bits no usage mask value
+                            # defines; no object can have them set.
+                            self._logger.debug(
+                                "Failed match: the specified cryptographic "
+                                "usage mask has undefined bits set."
+                            )
+                            add_object = False
+                            break
                         for mask_value in mask_values:
                             if mask_value not in attribute:
                                 self._logger.debug(
